@@ -1,7 +1,7 @@
 #!/usr/bin/env python3
-"""Seeded-change self test for C13 / C17: applies ONE edit at a time to a scratch worktree of /repo, confirms that the
+"""Seeded-change self test for C13 / C17 / the C14<->C13 content link: applies ONE edit at a time to a scratch worktree of /repo, confirms that the
 repository still compiles, runs `VERIF_REPO=<scratch> ./check <prop>`, records what the check reported, restores the
-scratch tree. Nothing is applied to /repo.   usage: selftest_typed.py C13|C17 [ids…]   → markdown rows on stdout"""
+scratch tree. Nothing is applied to /repo.   usage: selftest_typed.py C13|C17|C14 [ids…]   → markdown rows on stdout"""
 import json, os, re, subprocess, sys, zipfile, shutil
 
 ROOT = os.path.dirname(os.path.dirname(os.path.abspath(__file__)))
@@ -75,6 +75,21 @@ MUT = {
         ('T13', 'a slice field treated as invalid when empty (record.Speed1S `len != 0`)', sub(REC, 'if m.Speed1S != nil {', 'if len(m.Speed1S) != 0 {')),
         ('T14', 'shared template bug seeded in ONE other file: lap.TotalElapsedTime sentinel', sub('profile/mesgdef/lap_gen.go', 'if m.TotalElapsedTime != basetype.Uint32Invalid {', 'if m.TotalElapsedTime != 0 {')),
     ],
+    'C14': [
+        ('L1', 'activity.ToFIT converts the records with default options instead of the given ones (`f.Records[i].ToMesg(nil)`)',
+         sub('profile/filedef/activity.go', 'f.Records[i].ToMesg(options)', 'f.Records[i].ToMesg(nil)')),
+        ('L2', 'activity.Add drops the developer fields of unrelated messages (`mesg.DeveloperFields = nil` in the default branch)',
+         sub('profile/filedef/activity.go', '\t\tmesg.Fields = sliceutil.Clone(mesg.Fields)\n', '\t\tmesg.Fields = sliceutil.Clone(mesg.Fields)\n\t\tmesg.DeveloperFields = nil\n')),
+        ('L3', 'course.Add keeps the caller\'s Fields slice of an unrelated message (no clone)',
+         sub('profile/filedef/course.go', 'mesg.Fields = sliceutil.Clone(mesg.Fields)', '_ = sliceutil.Clone(mesg.Fields)')),
+        ('L4', 'index slip in activity.ToFIT: every lap is emitted as the first one (`f.Laps[0].ToMesg(options)`)',
+         sub('profile/filedef/activity.go', 'for i := range f.Laps {\n\t\tfit.Messages = append(fit.Messages, f.Laps[i].ToMesg(options))', 'for range f.Laps {\n\t\tfit.Messages = append(fit.Messages, f.Laps[0].ToMesg(options))')),
+        ('L5', 'settings.ToFIT strips the unknown fields of user_profile messages',
+         sub('profile/filedef/settings.go', 'fit.Messages = append(fit.Messages, f.UserProfiles[i].ToMesg(options))',
+             'um := f.UserProfiles[i].ToMesg(options)\n\t\tfor k := range um.Fields {\n\t\t\tif um.Fields[k].Name == "unknown" {\n\t\t\t\tum.Fields = um.Fields[:k]\n\t\t\t\tbreak\n\t\t\t}\n\t\t}\n\t\tfit.Messages = append(fit.Messages, um)')),
+        ('L6', 'weight.Add stores weight_scale messages unconverted as unrelated ones (case removed: no normalisation, emitted last)',
+         sub('profile/filedef/weight.go', '\tcase mesgnum.WeightScale:\n\t\tf.WeightScales = append(f.WeightScales, mesgdef.NewWeightScale(&mesg))\n', '')),
+    ],
     'C17': [
         ('G1', 'DESIGN §6: one scale edited in factory_gen.go (user_profile.height 100 → 10)',
          sub(FAC, '{Name: "height", Num: 3, Type: profile.Uint8, BaseType: basetype.Uint8, Scale: 100, Units: "m"}', '{Name: "height", Num: 3, Type: profile.Uint8, BaseType: basetype.Uint8, Scale: 10, Units: "m"}')),
@@ -100,6 +115,16 @@ MUT = {
         ('G14', 'profile type mapped to another base type (profile_gen.go: profile.File → basetype.Uint8)', 'ptbase'),
         ('G16', 'a type constant renamed in String() only (typedef.Activity: "manual" → "Manual")',
          sub('profile/typedef/activity_gen.go', 'case ActivityManual:\n\t\treturn "manual"', 'case ActivityManual:\n\t\treturn "Manual"')),
+        ('G17', 'version_gen.go: the doc comment names another version than the constant (v21.158 → v21.159 in the comment only)',
+         sub('profile/version_gen.go', 'profile version, v21.158,', 'profile version, v21.159,')),
+        ('G18', 'one untyped message number edited (mesgnum.SkinTempOvernight = 399)',
+         sub('profile/untyped/mesgnum/mesgnum_gen.go', 'SkinTempOvernight           = 398', 'SkinTempOvernight           = 399')),
+        ('G19', 'profile_gen.go: String() of one profile type renamed (profile.Sint8 → "int8"), FromString untouched',
+         sub('profile/profile_gen.go', 'case Sint8:\n\t\treturn "sint8"', 'case Sint8:\n\t\treturn "int8"')),
+        ('G20', 'typedef template changed without regeneration (shared/constant.tmpl: doc comment of FromString reworded)', 'tmpl-typedef'),
+        ('G21', 'untyped constant template changed without regeneration (shared/untyped_constant.tmpl)', 'tmpl-untyped'),
+        ('G22', 'factory template changed without regeneration (factory.tmpl)', 'tmpl-factory'),
+        ('G23', 'profile template changed without regeneration (profile.tmpl)', 'tmpl-profile'),
         ('G15', 'units string of one field edited (record.heart_rate "bpm" → "BPM")',
          sub(FAC, '3: {Name: "heart_rate", Num: 3, Type: profile.Uint8, BaseType: basetype.Uint8, Scale: 1, Units: "bpm"},', '3: {Name: "heart_rate", Num: 3, Type: profile.Uint8, BaseType: basetype.Uint8, Scale: 1, Units: "BPM"},')),
     ],
@@ -130,6 +155,11 @@ def main(argv):
             edit = find_xlsx_edit()
         elif edit == 'ptbase':
             edit = find_ptbase_edit()
+        elif isinstance(edit, str) and edit.startswith('tmpl-'):
+            edit = tmpl_edit({'tmpl-typedef': 'internal/cmd/fitgen/shared/constant.tmpl',
+                              'tmpl-untyped': 'internal/cmd/fitgen/shared/untyped_constant.tmpl',
+                              'tmpl-factory': 'internal/cmd/fitgen/profile/factory/factory.tmpl',
+                              'tmpl-profile': 'internal/cmd/fitgen/profile/profile.tmpl'}[edit])
         try:
             edit()
         except AssertionError as e:
@@ -168,6 +198,22 @@ def find_xlsx_edit():
         if cur == 'record' and c.get('C') == 'altitude':
             return xlsx_cell(c['G'], '50', f'G{idx}')
     raise AssertionError('record.altitude not found')
+
+
+def tmpl_edit(path):
+    """reword the first Go comment line of a template that ends up in the generated code (a line starting with `// ` that
+    is not the licence header and not inside a template action)"""
+    def f():
+        p = os.path.join(WT, path)
+        lines = open(p).read().split('\n')
+        for i, l in enumerate(lines):
+            t = l.strip()
+            if re.match(r'// (FromString parse|[A-Z][A-Za-z]+ (handles|creates|returns|is|occurs|converts|registers)) ', t):
+                lines[i] = l + ' (reworded)'
+                open(p, 'w').write('\n'.join(lines))
+                return
+        raise AssertionError(f'{path}: no comment line found')
+    return f
 
 
 def find_ptbase_edit():
